@@ -81,20 +81,38 @@ func main() {
 			r int64
 			t int
 		}
-		recv := map[rk]map[int]string{} // validator -> block name
+		// It holds every valid vote SENT to the node: an upper bound of what the node may count (it
+		// drops a peer's third catch-up round and the second of two conflicting votes), so a verdict
+		// "fewer than +2/3 even among everything sent" never blames a node that counted correctly.
+		recv := map[rk]map[int][]string{} // validator -> block names
+		record := func(k rk, v int, b string) {
+			if recv[k] == nil {
+				recv[k] = map[int][]string{}
+			}
+			for _, x := range recv[k][v] {
+				if x == b {
+					return
+				}
+			}
+			recv[k][v] = append(recv[k][v], b)
+		}
 		power := func(k rk, b string) int64 {
 			var p int64
-			for v, x := range recv[k] {
-				if x == b {
-					p += powers[v]
+			for v, xs := range recv[k] {
+				for _, x := range xs {
+					if x == b {
+						p += powers[v]
+					}
 				}
 			}
 			return p
 		}
 		polkaFor := func(round int64) (string, bool) {
 			cnt := map[string]int64{}
-			for v, x := range recv[rk{round, 1}] {
-				cnt[x] += powers[v]
+			for v, xs := range recv[rk{round, 1}] {
+				for _, x := range xs {
+					cnt[x] += powers[v]
+				}
 			}
 			for b, p := range cnt {
 				if p*3 > total*2 {
@@ -123,6 +141,7 @@ func main() {
 		}
 		observe := func(out string) {
 			committed := strings.Contains(out, "COMMIT(")
+			var carry [][4]string
 			// own messages processed by a drain: "V(t,r,block)" tokens before "||"
 			if strings.Contains(out, "||") {
 				for _, tok := range strings.Fields(strings.Split(out, "||")[0]) {
@@ -131,20 +150,21 @@ func main() {
 					}
 					f := strings.Split(strings.TrimSuffix(strings.TrimPrefix(tok, "V("), ")"), ",")
 					t, vh_, rd, b := int(nodeimpl.Atoi(f[0])), nodeimpl.Atoi(f[1]), nodeimpl.Atoi(f[2]), f[3]
+					if committed {
+						// a drain that crosses a height boundary: tokens of two heights, judge nothing - but the
+						// node's own votes of the NEW height (with skip_timeout_commit it enters the next round in
+						// the same drain) belong into the new ledger
+						carry = append(carry, [4]string{f[0], f[1], f[2], f[3]})
+						continue
+					}
 					if vh_ != ledgerH {
 						continue // a stale own vote of an earlier height still in the queue
 					}
 					k := rk{rd, t}
-					if recv[k] == nil {
-						recv[k] = map[int]string{}
+					if prev := recv[k][me]; len(prev) > 0 && prev[0] != b {
+						fail("validator-equivocates", "the validator emitted two different votes of one type in one round", tok, prev[0])
 					}
-					if committed {
-						continue // a drain that crosses a height boundary: tokens of two heights, judge nothing
-					}
-					if prev, ok := recv[k][me]; ok && prev != b {
-						fail("validator-equivocates", "the validator emitted two different votes of one type in one round", tok, prev)
-					}
-					recv[k][me] = b
+					record(k, me, b)
 					if t == 2 && b != "-" {
 						if power(rk{rd, 1}, b)*3 <= total*2 {
 							fail("precommit-without-polka", fmt.Sprintf("the validator precommitted %s in round %d without having received +2/3 prevotes for it in that round", b, rd), tok, "precommit nil")
@@ -180,9 +200,19 @@ func main() {
 				if e, ok := im.Blocks[b]; ok && !e.Valid {
 					fail("invalid-block-committed", "the validator committed an invalid block", out, "no commit")
 				}
-				recv = map[rk]map[int]string{}
+				recv = map[rk]map[int][]string{}
 				lastPrecommitRound, lastPrecommitBlock = -1, ""
 				ledgerH = nodeimpl.Atoi(f[0]) + 1
+				for _, c := range carry {
+					if nodeimpl.Atoi(c[1]) != ledgerH {
+						continue
+					}
+					k := rk{nodeimpl.Atoi(c[2]), int(nodeimpl.Atoi(c[0]))}
+					record(k, me, c[3])
+					if k.t == 2 && c[3] != "-" {
+						lastPrecommitRound, lastPrecommitBlock = k.r, c[3]
+					}
+				}
 			}
 		}
 		dead := false
@@ -202,13 +232,7 @@ func main() {
 			op := fmt.Sprintf("vote t=%d h=%d r=%d idx=%d addr=%x block=%s ok=1 peer=p%d", t, h, rd, v, im.C.Addr(v), b, v)
 			ch, _, _ := state()
 			if h == ch {
-				k := rk{rd, t}
-				if recv[k] == nil {
-					recv[k] = map[int]string{}
-				}
-				if _, dup := recv[k][v]; !dup {
-					recv[k][v] = b
-				}
+				record(rk{rd, t}, v, b)
 			}
 			step(op)
 		}
@@ -489,9 +513,16 @@ func main() {
 				case 4:
 					op = fmt.Sprintf("vote t=3 h=%d r=%d idx=%d addr=%x block=%s ok=1 peer=px", h, rd, v, im.C.Addr(v), b)
 				default:
-					op = fmt.Sprintf("vote t=%d h=%d r=%d idx=%d addr=%x block=%s ok=1 peer=p%d", R.Range(1, 2), h, rd+int64(R.Range(3, 9)), v, im.C.Addr(v), b, v)
+					// a VALID vote for a round far ahead: the node keeps it (a catch-up round), so it goes
+					// through the ledger like any other received vote; nobody else holds the node's own key
+					if v == me {
+						v = (v + 1) % n
+					}
+					peerVote(v, R.Range(1, 2), rd+int64(R.Range(3, 9)), b, h)
 				}
-				step(op)
+				if op != "" {
+					step(op)
+				}
 				r.Count(fmt.Sprintf("act.badvote%d", kind))
 			case c < 96 && r.Mode == "wal": // kill + restart from the WAL (C07)
 				if R.Chance(25) { // the group's ticker rotates the head file (size limit reached)
@@ -518,10 +549,7 @@ func main() {
 						}
 						if (power(rk{rd, 2}, b)+powers[v])*3 > total*2 {
 							op := fmt.Sprintf("vote t=2 h=%d r=%d idx=%d addr=%x block=%s ok=1 peer=p%d presave=1", h, rd, v, im.C.Addr(v), b, v)
-							if recv[rk{rd, 2}] == nil {
-								recv[rk{rd, 2}] = map[int]string{}
-							}
-							recv[rk{rd, 2}][v] = b
+							record(rk{rd, 2}, v, b)
 							do(op)
 							step("restart torn=0")
 							r.Count("act.restart-commit-in-replay")
@@ -599,12 +627,7 @@ func main() {
 							b := known()
 							op := fmt.Sprintf("vote t=%d h=%d r=%d idx=%d addr=%x block=%s ok=1 peer=p%d presave=1", R.Range(1, 2), h, rd, v, im.C.Addr(v), b, v)
 							k2 := rk{rd, int(nodeimpl.Atoi(strings.Split(strings.Split(op, "t=")[1], " ")[0]))}
-							if recv[k2] == nil {
-								recv[k2] = map[int]string{}
-							}
-							if _, dup := recv[k2][v]; !dup {
-								recv[k2][v] = b
-							}
+							record(k2, v, b)
 							res2 := do(op)
 							_ = res2
 							step("restart torn=0")
@@ -643,13 +666,7 @@ func main() {
 				r2 := rd + 20
 				for v := 0; v < n && !dead; v++ {
 					if v != me {
-						k := rk{r2, 2}
-						if recv[k] == nil {
-							recv[k] = map[int]string{}
-						}
-						if _, dup := recv[k][v]; !dup {
-							recv[k][v] = fin
-						}
+						record(rk{r2, 2}, v, fin)
 						step(fmt.Sprintf("vote t=2 h=%d r=%d idx=%d addr=%x block=%s ok=1 peer=f%d_%d", h, r2, v, im.C.Addr(v), fin, q, v))
 					}
 				}
